@@ -247,3 +247,17 @@ func funcNames(m map[*Func][]ast.Node) []string {
 	sort.Strings(out)
 	return out
 }
+
+func (p *Prog) atomIsCallAny(f *Func, e ast.Expr, callees ...string) bool {
+	c, _, ok := p.ResolveCall(f, e)
+	if !ok {
+		return false
+	}
+	n := p.CalleeName(c)
+	for _, x := range callees {
+		if n == x {
+			return true
+		}
+	}
+	return false
+}
